@@ -196,7 +196,7 @@ def r19f(ctx, repo):
 
     from ..core.regions import split_conjuncts
 
-    gs = [ast.unparse(c) for t, pol in guards_of(enclosing_stmt(app[0]), stop=loop) if pol for c in split_conjuncts(t)]
+    gs = [ast.unparse(c) for t, pol in guards_of(enclosing_stmt(app[0]), stop=loop, asserts=False) if pol for c in split_conjuncts(t)]
     ok = set(gs) == {"isinstance(%s, ast.Name)" % v, "%s.id not in supported_functions" % v}
     ctx.check(ok, "R19f", fi, enclosing_stmt(app[0]), "names outside the whitelist become dependencies", "the dependency list is filled under `%s`" % " and ".join(gs))
     lst = ast.unparse(app[0].func.value)
@@ -278,7 +278,7 @@ def r19g(ctx, repo):
     check("call target", find(lambda t: "%s.func" % n in t), "isinstance(%s.func, ast.Name) and %s.func.id in supported_functions" % (n, n), "%s and not isinstance(%s, ast.Constant) and isinstance(%s, ast.Call)" % (not_dep, n, n), "a call to an unlisted function (or through an attribute / subscript / call result) is accepted and executed")
     check("call keywords", find(lambda t: "%s.keywords" % n in t), "not %s.keywords" % n, "%s and not isinstance(%s, ast.Constant) and isinstance(%s, ast.Call)" % (not_dep, n, n), "keyword arguments are accepted")
     deps = [c for c in ast.walk(loop) if isinstance(c, ast.Call) and isinstance(c.func, ast.Attribute) and c.func.attr == "append"]
-    okd = len(deps) == 1 and ast.unparse(deps[0].args[0]) == "%s.id" % n and B.equivalent(B.cond(guards_of(enclosing_stmt(deps[0]), stop=loop)), B.parse_cond(name_dep.replace("not in", "in").replace("%s.id in" % n, "not %s.id in" % n) if False else "isinstance(%s, ast.Name) and not (%s.id in supported_functions)" % (n, n)))
+    okd = len(deps) == 1 and ast.unparse(deps[0].args[0]) == "%s.id" % n and B.equivalent(B.cond(guards_of(enclosing_stmt(deps[0]), stop=loop, asserts=False)), B.parse_cond("isinstance(%s, ast.Name) and not (%s.id in supported_functions)" % (n, n)))
     ctx.check(okd, "R19g", fi, enclosing_stmt(deps[0]) if deps else loop, "every non-function name is a dependency", "the dependency list does not receive node.id exactly for the Names that are not supported functions", stmt_text="deps")
     # sdiv
     sd = repo.func("function_parser", "sdiv")
